@@ -121,16 +121,25 @@ def csv_text(names):
     return "\n".join(",".join([row] + [c[row] for c in cols]) for row in ROWS) + "\n"
 
 
+# configuration *sets* (several columns in one CSV): names that are distinct but differ only in punctuation/spacing/case
+CONFIG_SETS = {
+    "similar_names": [("cam A: 8x4 10 bit", "minimal_hq"), ("cam_A_8x4_10_bit", "ld_plain")],
+}
+
+
 def plan(tier, seed):
     shards = []
     if tier == "quick":
         i = 0
+        shards.append({"shard": 100, "config": "set:similar_names", "group": 0, "schedules": 1, "hashseed_runs": 0})
         for cfg in QUICK_CONFIGS:
             for g in range(4):
                 shards.append({"shard": i, "config": cfg, "group": g, "schedules": 2, "hashseed_runs": 1 if g == 0 else 0})
                 i += 1
     else:
         i = 0
+        for g in range(3):
+            shards.append({"shard": 1000 + g, "config": "set:similar_names", "group": g, "schedules": 5, "hashseed_runs": 1 if g == 0 else 0})
         for cfg in sorted(CONFIGS):
             for g in range(6):
                 shards.append({"shard": i, "config": cfg, "group": g, "schedules": 5, "hashseed_runs": 1 if g < 3 else 0})
@@ -190,7 +199,16 @@ def _run(case, cfg, work, ctx):
     repo = os.environ.get("VERIF_REPO", "/repo")
     csvp = os.path.join(work, "features.csv")
     with open(csvp, "w") as f:
-        f.write(csv_text([cfg]))
+        if cfg.startswith("set:"):
+            cols = []
+            for nm, basecfg in CONFIG_SETS[cfg[4:]]:
+                c = dict(MINIMAL)
+                c.update(CONFIGS[basecfg])
+                c["name"] = nm
+                cols.append(c)
+            f.write("\n".join(",".join([row] + ['"%s"' % c[row] if "," in c[row] or " " in c[row] else c[row] for c in cols]) for row in ROWS) + "\n")
+        else:
+            f.write(csv_text([cfg]))
     base_env = {"VERIF_REPO": repo}
 
     def serial(tag, hashseed):
